@@ -8,7 +8,7 @@ import (
 )
 
 // reference truncation (DESIGN A.2)
-func refTruncate(limit int, s string) string {
+func c17RefTruncate(limit int, s string) string {
 	if limit < 0 || len(s) <= limit {
 		return s
 	}
@@ -31,7 +31,7 @@ func HarnessC17Truncate() {
 	s := vndString(vndParam("N", 4))
 	limit := vndChoice(vndParam("L", 3)+2) - 1
 	got := truncate(limit, s)
-	want := refTruncate(limit, s)
+	want := c17RefTruncate(limit, s)
 	if limit >= 0 && len(s) > limit {
 		vndReach("cut")
 		vndAssert(utf8.RuneCountInString(got) <= limit, "truncate-at-most-limit-characters")
@@ -80,7 +80,7 @@ func c17CheckValue(limit int, got, offered log.Value, tag string) {
 	}
 	switch got.Kind() {
 	case log.KindString:
-		g, w := got.AsString(), refTruncate(limit, offered.AsString())
+		g, w := got.AsString(), c17RefTruncate(limit, offered.AsString())
 		if limit >= 0 {
 			vndAssert(utf8.RuneCountInString(g) <= limit, tag+"-string-within-length-limit")
 		}
